@@ -174,6 +174,17 @@ func (c02) Gen(rng *rand.Rand, tier string, i int) *sim.Scenario {
 		o.bigTTL = 0.12
 	}
 	wr := genWireRun(rng, o, 0, "c0")
+	if wr.v.Entry != "tcp" && wr.v.Entry != "sack" && chance(rng, 0.06) {
+		// probes paced slower than one poll interval: the last probe's window reaches a whole send
+		// delay beyond the others', and replies may arrive anywhere in it
+		wr.call.DelayMs = pick(rng, 150, 200, 300)
+		last := &wr.flow.Hops[len(wr.flow.Hops)-1]
+		for ri := range last.Replies {
+			if last.Replies[ri].Perturb == "" && last.Replies[ri].Garbage == "" {
+				last.Replies[ri].DelayUs = int64(wr.call.TimeoutMs)*1000 - int64(between(rng, 1, wr.call.DelayMs-wr.call.PollMs-5))*1000
+			}
+		}
+	}
 	if wr.v.Entry == "tcp" {
 		// no late replies for the serial engine
 		for hi := range wr.flow.Hops {
@@ -710,6 +721,11 @@ func (c06) Gen(rng *rand.Rand, tier string, i int) *sim.Scenario {
 	}
 	sc := scenarioFor("C06", rng, []*wireRun{wr})
 	applyWrapBases(rng, sc)
+	if len(sc.Listeners) == 0 {
+		// the local port is the scenario's, not the kernel's: what depends on it (checksums, tags) is
+		// reached on purpose and replays
+		sc.Knobs.LocalPort = between(rand.New(rand.NewPCG(uint64(i), 6)), 1025, 65000)
+	}
 	return sc
 }
 
